@@ -616,8 +616,27 @@ class Interp:
                     yield s2, (RAISE, self.make_exception(s2, AssertionError, []))
 
     def s_FunctionDef(self, node, st):
-        st.env[node.name] = self.make_closure(node, st, node.name)
-        yield st, None
+        fv = self.make_closure(node, st, node.name)
+        if not node.decorator_list:
+            st.env[node.name] = fv
+            yield st, None
+            return
+        # decorators of nested definitions change what the name is bound to: apply them (innermost first)
+        def apply(i, s, cur):
+            if i < 0:
+                s.env[node.name] = cur
+                yield s, None
+                return
+            for s1, r in self.eval(node.decorator_list[i], s):
+                if r[0] != "ok":
+                    yield s1, r
+                    continue
+                for s2, r2 in self.call(s1, r[1], [cur], {}):
+                    if r2[0] != "ok":
+                        yield s2, r2
+                    else:
+                        yield from apply(i - 1, s2, r2[1])
+        yield from apply(len(node.decorator_list) - 1, st, fv)
 
     def make_closure(self, node, st, name):
         is_gen = any(isinstance(n, (ast.Yield, ast.YieldFrom)) for n in self.walk_own(node))
@@ -1029,6 +1048,14 @@ class Interp:
     def call(self, st: St, f: V, args, kwargs, node=None):
         """yield (st, ('ok', V) | ('raise', V))"""
         if f.kind == "fn":
+            if f.tag and f.tag[0] == "memoized":
+                for s_, r_ in self.call_closure(st, f.d, args, kwargs):
+                    if r_[0] == "ok" and r_[1].kind == "ref":
+                        s_.heap[r_[1].d].fresh = False      # the object lives in the cache and is handed out again
+                    elif r_[0] == "ok" and r_[1].tag and r_[1].tag[0] == "fresh_container":
+                        r_[1].tag = ("cached",)
+                    yield s_, r_
+                return
             yield from self.call_closure(st, f.d, args, kwargs)
             return
         if f.kind == "bound":
